@@ -1881,11 +1881,11 @@ def simplify_guards(terms_, a, q, t, c_):
         seen.add(z.id)
         if z.op == "fdiv" and z.args[0] is a and T.is_t(z.args[1]) and z.args[1].op == "fmul" and z.args[1].args[0] is a and z.args[1].args[1] is q:
             mapping[z.id] = T.fbin("fdiv", 1.0, q)
-        if z.op == "fmax" and len(z.args) == 2:
-            # max(a, a*q) = a on the domain (a > 0, q <= 1)
+        if z.op in ("fmax", "fmin") and len(z.args) == 2:
+            # max(a, a*q) = a, min(a, a*q) = a*q on the domain (a > 0, q <= 1)
             for u_, w_ in ((z.args[0], z.args[1]), (z.args[1], z.args[0])):
                 if u_ is a and T.is_t(w_) and w_.op == "fmul" and w_.args[0] is a and w_.args[1] is q:
-                    mapping[z.id] = a
+                    mapping[z.id] = a if z.op == "fmax" else w_
         if z.op == "flt" and T.is_t(z.args[0]) and z.args[0].op == "fabs" and not T.is_t(z.args[1]):
             inner = z.args[0].args[0]
             if T.is_t(inner) and inner.op == "fsub" and inner.args[0] is t and not T.is_t(inner.args[1]) and abs(inner.args[1] - math.pi / 2) < 1e-12:
@@ -2034,7 +2034,7 @@ def c01(res, tier, seed):
     shapes.append(("square", "line", "line_shape::LineShape", data["shapes"]["polygon4"]))
     if tier == "thorough":
         shapes.append(("trimer", "mol", "molecular_shape2::MolecularShape2", data["shapes"]["trimer:0.637556,120,1"]))
-        shapes.append(("triangle", "line", "line_shape::LineShape", data["shapes"]["polygon3"]))
+    shapes.append(("triangle", "line", "line_shape::LineShape", data["shapes"]["polygon3"]))
     glist = ["p1", "p2"] if tier == "quick" else ["p1", "p2", "p1m1", "p1g1", "p2mg", "p2gg"]
     a, q, t, x, y, th = F("a"), F("q"), F("t"), F("x"), F("y"), F("th")
     c_, s_ = T.uf("cos", [t]), T.uf("sin", [t])
@@ -2306,8 +2306,9 @@ def c01(res, tier, seed):
                                                 if translates:
                                                     hyp2.append(T.bor(T.bnot(pre), T.bnot(translate_overlap(sitems, e["p"], e["q"], 1e-7))))
                                                 else:
-                                                    hyp2.append(T.bor(T.bnot(pre), no_vertex_inside(sitems, e["p"], e["q"])))
-                                        goal2 = translate_overlap(sitems, Pcopy[i_], gimg, 1e-6) if translates else true_overlap("line", sitems, Pcopy[i_], gimg)
+                                                    # a separating edge normal exists (margin 1e-7): exact content of "no overlap" for convex polygons
+                                                    hyp2.append(T.bor(T.bnot(pre), T.bnot(true_overlap("line", sitems, e["p"], e["q"], tol=1e-7))))
+                                        goal2 = translate_overlap(sitems, Pcopy[i_], gimg, 1e-6) if translates else true_overlap("line", sitems, Pcopy[i_], gimg, tol=1e-6)
                                         raw2 = base + hyp2 + [goal2]
                                         q2 = Query("[%s x %s] k=%d copies %d,%d image (%d,%d) [not searched]: cannot overlap when the neighbouring tests are negative (stage 2: no vertex of a tested neighbour inside the other, separating-axis overlap)" % (g, sname, k, i_, j_, n_, m_),
                                                    finish(raw2, i_=i_, j_=j_), timeout=90 if tier == "quick" else 600, meta=dict(group=g, shape=sname, k=k, i=i_, j=j_, n=n_, m=m_, kind="untested-exact", hypotheses=len(hyp2)))
@@ -2500,8 +2501,10 @@ def c01(res, tier, seed):
                 if getattr(q2, "poly_skels", None) is not None:
                     polyq.relax_theta(q2.poly_skels, 1.0, 0.0, 0.1)
                     bb.append(q2)
-            except polyq.NotPoly:
-                pass
+            except polyq.NotPoly as e_:
+                q2.meta = dict(q2.meta, no_orientation_bb=str(e_))
+            if os.environ.get("VERIF_C01_MATCH"):
+                print("stage2", q2.name[:70], "converted" if getattr(q2, "poly_skels", None) is not None else q2.meta.get("not_converted"), q2.meta.get("no_orientation_bb"))
         if bb and not os.environ.get("VERIF_C01_NOBB"):
             theta_bb(bb, _time.time() + (360 if tier == "quick" else 3600))
             repl0 = {id(q1): q2 for q1, q2 in stage2 if getattr(q2, "bb_done", False)}
@@ -2900,4 +2903,9 @@ def run(prop, tier, seed, only=None):
     except Unsupported as e:
         res.ob("mir-execution", "mirsym", "undischarged", "unsupported MIR construct: %s" % e)
         res.notes.append("the MIR engine met a construct outside its subset; nothing is claimed for the affected obligations")
+    drops = [d_ for ex_ in E.LOADED for d_ in getattr(ex_, "cast_dropped", [])]
+    if drops:
+        rngs = sorted(set(tuple(d_["range"]) for d_ in drops))
+        res.bounds = list(res.bounds) + ["a symbolic float cast to an integer (%s) is followed for the integer values %s only; states in which it takes another value are outside the claim" % (
+            ", ".join(sorted(set(d_["fn"].split("::")[-1] for d_ in drops))), " / ".join("%d..%d" % r_ for r_ in rngs))]
     return res
